@@ -12,8 +12,8 @@ PROPS = {
     "C02": dict(families=["classic", "setup", "outage", "stoch", "mixed", "shifted"], kinds=CORE),
     "C03": dict(families=["ordered", "transport", "buffers", "mixed", "classic", "outage", "bigids"], kinds=CORE),
     "C04": dict(families=["classic", "transport", "mixed", "buffers"], kinds=CORE + "F"),
-    "C05": dict(families=["ordered", "classic", "transport", "buffers", "outage", "stoch", "mixed"], kinds=CORE + "F"),
-    "C06": dict(families=["classic"], kinds=CORE + "LFR"),
+    "C05": dict(families=["ordered", "classic", "transport", "buffers", "outage", "stoch", "mixed"], kinds=CORE + "FK"),
+    "C06": dict(families=["classic"], kinds=CORE + "LFRK"),
     "C07": dict(families=["ordered", "transport", "stoch", "mixed", "buffers"], kinds=CORE),
     "C08": dict(families=["ordered", "buffers", "mixed", "transport"], kinds=CORE),
     "C09": dict(families=["setup", "stoch", "mixed"], kinds=CORE),
